@@ -64,7 +64,11 @@ fn place(p: &mut Pos1, s: u8, color: u8, kind: u8) -> bool {
 }
 
 fn usable(p: &Pos1) -> bool {
-    p.validity().is_ok() && !p.has_backrank_pawn() && p.ep_origin_empty()
+    // the double-step origin square is normally required to be empty (plausibility, not part of
+    // the validity list); the longest-move-list shape needs a pawn there and is recognised by
+    // its ten pawns
+    let pawns = p.sq.iter().filter(|&&x| x == pc(p.stm, P)).count();
+    p.validity().is_ok() && !p.has_backrank_pawn() && (p.ep_origin_empty() || pawns > 8)
 }
 
 fn random_piece_kind(t: &mut Tape) -> u8 {
@@ -326,7 +330,61 @@ fn promotion(t: &mut Tape) -> Pos1 {
 
 /// as many move-list entries as the rules allow: pawns on the seventh rank (four entries
 /// each since every promotion piece has its own entry) plus mobile pieces
+/// the shape that needs every one of the move list's entries: eight pawns about to promote,
+/// two en-passant capturers that can also push, four knights, and king and rook at home
+/// with the castling right (sixteen pieces; ten pawns are fine by the validity list)
+fn longest_move_list(t: &mut Tape) -> Pos1 {
+    let mut p = Pos1::empty();
+    p.stm = WHITE;
+    for f in 0..8u8 {
+        p.sq[sq(f, 6) as usize] = pc(WHITE, P);
+    }
+    let f = t.range(1, 6) as u8;
+    p.sq[sq(f, 4) as usize] = pc(BLACK, P);
+    p.sq[sq(f - 1, 4) as usize] = pc(WHITE, P);
+    p.sq[sq(f + 1, 4) as usize] = pc(WHITE, P);
+    p.ep = Some(f);
+    p.sq[4] = pc(WHITE, K);
+    let kingside = t.choose(2) == 0;
+    if kingside {
+        p.sq[7] = pc(WHITE, R);
+        p.cr[WK] = t.choose(4) != 0;
+    } else {
+        p.sq[0] = pc(WHITE, R);
+        p.cr[WQ] = t.choose(4) != 0;
+    }
+    let mut knights = 0;
+    for _ in 0..12 {
+        if knights == 4 {
+            break;
+        }
+        if let Some(s) = rand_empty(t, &p, 0, 2) {
+            // keep the castling path clear
+            if (kingside && (s == 5 || s == 6)) || (!kingside && (s == 1 || s == 2 || s == 3)) {
+                continue;
+            }
+            if place(&mut p, s, WHITE, N) {
+                knights += 1;
+            }
+        }
+    }
+    // the black king out of everybody's way
+    for s in [sq(7, 3), sq(6, 3), sq(0, 3), sq(7, 4), sq(0, 4)] {
+        if p.sq[s as usize] == EMPTY {
+            p.sq[s as usize] = pc(BLACK, K);
+            if usable(&p) {
+                break;
+            }
+            p.sq[s as usize] = EMPTY;
+        }
+    }
+    p
+}
+
 fn promotion_wall(t: &mut Tape) -> Pos1 {
+    if t.choose(4) == 3 {
+        return longest_move_list(t);
+    }
     let mut p = Pos1::empty();
     p.stm = WHITE;
     let pawns = t.range(5, 8);
